@@ -210,7 +210,7 @@ void op_sign(const Case& c, TaskCtx& t, Outcome& o) {
   // ---- C01 completeness
   if (has_chk(c, "c01")) {
     if (rc != 0)
-      CHECK_FAIL("C01.sign_failed", std::string(p.name) + " " + family_tag(c) + " surf" + std::to_string(surf) + " mlen=" +
+      CHECK_FAIL(owned("C01.sign_failed", {"C12", "C16"}), std::string(p.name) + " " + family_tag(c) + " surf" + std::to_string(surf) + " mlen=" +
                                                  std::to_string(msg.size()) + " key=" + c.s("kpat") + ": sign returned " + std::to_string(rc));
     if (len > mx)
       CHECK_FAIL("C01.len_exceeds_max", "len " + std::to_string(len) + " > max " + std::to_string(mx));
@@ -224,7 +224,7 @@ void op_sign(const Case& c, TaskCtx& t, Outcome& o) {
         if (t.stats)
           t.stats->hit("c01.verify");
         if (v != 0)
-          CHECK_FAIL("C01.honest_signature_rejected", std::string(p.name) + " signed on " + family_tag(c) + " surf" + std::to_string(surf) +
+          CHECK_FAIL(owned("C01.honest_signature_rejected", {"C12", "C16"}), std::string(p.name) + " signed on " + family_tag(c) + " surf" + std::to_string(surf) +
                                                                    ", rejected on node " + nd + " surf" + std::to_string(vs) + " mlen=" + std::to_string(msg.size()));
       }
   }
@@ -241,12 +241,12 @@ void op_sign(const Case& c, TaskCtx& t, Outcome& o) {
       size_t d = 0;
       while (d < ms.size() && d < sig.size() && ms[d] == sig[d])
         d++;
-      CHECK_FAIL("C03.differs_from_specification", std::string(p.name) + " " + family_tag(c) + " mlen=" + std::to_string(msg.size()) + ": len " +
+      CHECK_FAIL(owned("C03.differs_from_specification", {"C10"}), std::string(p.name) + " " + family_tag(c) + " mlen=" + std::to_string(msg.size()) + ": len " +
                                                                 std::to_string(sig.size()) + " vs model " + std::to_string(ms.size()) + ", first difference at byte " +
                                                                 std::to_string(d));
     }
   } else if (has_chk(c, "c03") && rc != 0)
-    CHECK_FAIL("C03.sign_failed", std::string(p.name) + ": sign returned " + std::to_string(rc));
+    CHECK_FAIL(owned("C03.sign_failed", {"C10"}), std::string(p.name) + ": sign returned " + std::to_string(rc));
   // ---- C09 only what the protocol permits
   if (has_chk(c, "c09") && rc == 0) {
     model::Trace tr;
